@@ -56,6 +56,18 @@ pub fn op_kdf(a: &[&str]) -> String {
         }
         [ty, "seed", h] => {
             let Some(seed) = unhex(h) else { return bad() };
+            // the trait route (`SeedDerivable::from_seed`) gives the same key as the inherent constructor, and the
+            // derivation-path constructor is refused for every type
+            {
+                let t = <ElGamalSecretKey as SeedDerivable>::from_seed(&seed).ok().map(|s| s.as_bytes().to_vec());
+                let i = ElGamalSecretKey::from_seed(&seed).ok().map(|s| s.as_bytes().to_vec());
+                if t != i { return "variant-mismatch:trait-route".into() }
+                let tk = <ElGamalKeypair as SeedDerivable>::from_seed(&seed).ok().map(|k| kp_bytes(&k));
+                if tk.as_ref().map(|k| k[32..].to_vec()) != i { return "variant-mismatch:trait-route-keypair".into() }
+                if <ElGamalSecretKey as SeedDerivable>::from_seed_and_derivation_path(&seed, None).is_ok()
+                    || <ElGamalKeypair as SeedDerivable>::from_seed_and_derivation_path(&seed, None).is_ok()
+                    || <AeKey as SeedDerivable>::from_seed_and_derivation_path(&seed, None).is_ok() { return "variant-mismatch:derivation-path".into() }
+            }
             match *ty {
                 "elgamal" => match (ElGamalKeypair::from_seed(&seed), ElGamalSecretKey::from_seed(&seed)) {
                     (Ok(k), Ok(s)) if k.secret().as_bytes() == s.as_bytes() => format!("ok:{}", hex(&kp_bytes(&k))),
